@@ -42,6 +42,10 @@ CHECKS["C11"] = dict(level="fault_enumeration", ref="DESIGN.md §5 C11",
    technique="crash-point enumeration: the patching program runs in forked children that os._exit at the n-th I/O/API event (all events in thorough), exhaustive torn prefixes of the final user-block write, and real SIGKILLs judged via an fsync'd progress log; oracle on the directory left behind (byte digests, committed subset vs reference tree, tri-state outcome of the full set, r+ recovery)",
    text="Deterministic enumeration of crash points at every hooked event boundary of generated patching scenarios (quick: 40 per scenario incl. all inside commit_patch; thorough: all), every torn-prefix length of the committing header write, plus sparse real kills. Crash instants inside one libhdf5 call and power-loss reordering are out of reach.",
    note=TB + "; os._exit at an event boundary is taken as a faithful model of process death at that point")
+CHECKS["C10"] = dict(level="exploration", ref="DESIGN.md §5 C10",
+   technique="generated IH5MF histories with manifest-extension commits; invariant after every commit (manifest digest/uuid vs user block, skeleton vs reference tree incl. last-written patch indices, extension inheritance); differential stub-vs-direct application of generated existence-based updates",
+   text="Generated search: manifest invariants are checked after every commit of every history; each case then builds a stub, applies the same generated update via stub and directly, and requires per-operation parity, acceptance of the stub-made patch by the real files and equality with the reference result. Bounded history/update length; sampling.",
+   note=TB)
 NOT_YET = {}
 def main():
     props = [json.loads(l) for l in open(os.path.join(HERE, "properties.jsonl"))]
